@@ -159,7 +159,12 @@ struct YearlyMaxCosts {
 fn calc_yearly_max_cost_day(max_day_costs: &MaxDayCosts) -> YearlyMaxCosts {
     let mut max_cost_day_for_year = HashMap::<i32, Date>::new();
 
-    for (day, day_cost) in &max_day_costs.max_costs_by_day {
+    // Go through the days in order, so that when several days of a year share the
+    // highest total, the same one (the earliest) is always picked.
+    let mut sorted_days: Vec<&Date> = max_day_costs.max_costs_by_day.keys().collect();
+    sorted_days.sort();
+    for day in sorted_days {
+        let day_cost = &max_day_costs.max_costs_by_day[day];
         match max_cost_day_for_year.get(&day.year()) {
             Some(old_date) => {
                 let old_date_cost =
